@@ -819,3 +819,30 @@ def return_from_loops_program():
         stmts.append(R.Print(N(value=99), ln=True))
         return stmts
     return gen
+
+
+# ---------------------------------------------------------------- C01: unit switches ---------
+def unit_switch_program():
+    """Actions before and after every unit switch, with non-zero time and duration in force."""
+    def gen(ch):
+        env = Env(ch)
+        m1 = ch.pick(['logical', 'raw', 'rgb'])
+        m2 = ch.pick([m for m in ('logical', 'raw', 'rgb') if m != m1])
+        doms = {}
+
+        def reg(name, dom):
+            n = env.num('any')
+            doms[n.sid] = dom
+            return R.SetReg(name, n)
+        cdom = {'logical': [('real', 1, 359), ('real', 1, 99), ('real', 1, 99)], 'raw': [('real', 100, 65000)] * 3, 'rgb': [('real', 1, 99)] * 3}[m1]
+        names = ('red', 'green', 'blue') if m1 == 'rgb' else ('hue', 'saturation', 'brightness')
+        tmax = 50000 if m1 == 'raw' else 50
+        stmts = [R.Units(m1)] + [reg(n, d) for n, d in zip(names, cdom)] + [reg('kelvin', ('int', 1500, 9000)),
+                                                                                 reg('time', ('real', tmax / 5000, tmax)), reg('duration', ('real', tmax / 5000, tmax))]
+        act = ch.pick([lambda: R.Action('set', [R.Operand('light', R.Str('A'))]), lambda: R.Action('on', [R.Operand('group', R.Str('G1'))]),
+                       lambda: R.Action('set', 'all'), lambda: R.Action('off', [R.Operand('light', R.Str('B')), R.Operand('location', R.Str('L1'))])])
+        stmts += [act(), R.Units(m2), act()]
+        if ch.flag():
+            stmts += [R.Units(m1), act()]
+        return (doms, stmts)
+    return gen
